@@ -270,6 +270,17 @@ class EvalMixin:
         if n in self.uni.obj_classes or n in self.uni.val_classes or n in self.uni.bases \
                 or n in getattr(self.uni, "class_names", ()):
             return SV(VInt(z3.IntVal(self.uni.class_id(n))), K("class", n))
+        locs = getattr(self, "_fn_locals", None)
+        if locs is None and getattr(self, "fn", None) is not None:
+            locs = self._fn_locals = {x.id for x in ast.walk(self.fn) if isinstance(x, ast.Name) and isinstance(x.ctx, ast.Store)}
+        if locs and n in locs and not cx.spec:
+            # a local of the function that no statement on THIS path has bound: CPython raises UnboundLocalError (implicit
+            # exceptions are not checked); modelled as an arbitrary value of its declared kind
+            k_ = getattr(self, "decl_kinds", {}).get(n, ANY)
+            t_ = fresh("unbound_" + n, V)
+            st.env[n] = SV(t_, k_)
+            assume_typed(st, t_, k_)
+            return st.env[n]
         raise OutOfSubset("unbound name %s at line %s" % (n, getattr(node, "lineno", "?")))
 
     def ev_Attribute(self, node, st, cx):
